@@ -26,16 +26,28 @@ MANIFEST = dict(
     ref="5.6, 6 C20")
 
 
-def run_script(live, script, persist, wd, idx):
-    """Plays one Recovery.tla history against the real session; returns the monitor events."""
+CFGXML = """<?xml version='1.0' encoding='ISO-8859-1'?>
+<fix8>
+  <session name="S1" role="initiator" fix_version="4200" active="true" ip="127.0.0.1" port="11001"
+           sender_comp_id="INI" target_comp_id="ACC" heartbeat_interval="30" ignore_logon_sequence_check="true"
+           process_model="threaded" />
+</fix8>
+"""
+
+
+def run_script(live, script, persist, wd, idx, ignore=False):
+    """Plays one Recovery.tla history against the real session; returns the monitor events.
+    ignore=True installs a SessionConfig with ignore_logon_sequence_check (what ReliableClientSession users set)."""
     cfg = {"prop": "C20", "role": "ini", "persist": persist, "sender": "INI", "target": "ACC", "hb": 30, "reset": False,
-           "enforce": True, "always_assign": False, "cfg_send": 0, "cfg_recv": 0, "clients": []}
+           "enforce": True, "always_assign": False, "cfg_send": 0, "cfg_recv": 0, "clients": [], "ignore_logon_gap": ignore}
     evs = []
     now = sc.T0
     peer = sc.Peer()
     live.cmd("reset {}")
     evs.append({"e": "Reset", "cfg": cfg})
     live.cmd("clock %d 0" % now)
+    if ignore:
+        live.cmd("set sessioncfg %s/ignore.xml" % wd)
     live.cmd("new ini %s %s/c20_%d INI ACC 30" % (persist, wd, idx))
     st = {"up": False, "rr": None, "dead": False, "nr": 0}
 
@@ -147,7 +159,7 @@ def run(ctx):
         if x["ok"]:
             raise core.Infra("deviation %s violates nothing: invariants vacuous" % d)
         ctx.extra.setdefault("deviation_witnesses", {})[d] = x["violated"]
-    r = tlc.check("Recovery.tla", "MC_Recovery_export.cfg" if ctx.quick else "MC_Recovery_export_thorough.cfg", workers=8, timeout=900)
+    r = tlc.check("Recovery.tla", "MC_Recovery_export.cfg" if ctx.quick else "MC_Recovery_export_thorough.cfg", workers=1, timeout=900)
     scripts = tlc.leaves(r["out"])
     if len(scripts) < 300:
         raise core.Infra("history export produced only %d histories" % len(scripts))
@@ -156,9 +168,13 @@ def run(ctx):
     rng = random.Random(ctx.seed + 20)
     if not ctx.quick and len(scripts) > 12000:
         scripts = rng.sample(scripts, 12000)
-    jobs = [(s, "mem" if i % 3 else "file") for i, s in enumerate(scripts)]
+    jobs = [(s, "mem" if i % 3 else "file", False) for i, s in enumerate(scripts)]
+    # the same histories with ignore_logon_sequence_check configured (only those that reconnect differ)
+    jobs += [(s, "mem", True) for s in scripts if any(o["op"] == "Reconnect" for o in s)]
     wd = os.path.join(ctx.workdir, "c20")
     os.makedirs(wd, exist_ok=True)
+    with open(os.path.join(wd, "ignore.xml"), "w") as fh:
+        fh.write(CFGXML)
     nproc = 12
     parts = [list(range(i, len(jobs), nproc)) for i in range(nproc)]
 
@@ -167,7 +183,7 @@ def run(ctx):
         live = sc.Live("asan" if pi == 0 else "plain", cwd=wd)
         try:
             for j in parts[pi]:
-                out[j] = run_script(live, jobs[j][0], jobs[j][1], wd, j)
+                out[j] = run_script(live, jobs[j][0], jobs[j][1], wd, j, jobs[j][2])
         finally:
             live.close()
         return out
@@ -179,14 +195,14 @@ def run(ctx):
     ctx.tick("probe")
     fails, labels, info = tlc.validate_execs("T_Session.tla", "T_Session.cfg", traces, ctx.workdir, "c20", chunks=10)
     ctx.add_validation(info, len(traces))
-    for (s, p), t in zip(jobs, traces):
-        ctx.case([s, p], nontrivial=len(s) > 1)
+    for (s, p, ig), t in zip(jobs, traces):
+        ctx.case([s, p, ig], nontrivial=len(s) > 1)
     seen = set()
     for f in fails:
         if (f["exec"], f["sig"]) in seen:
             continue
         seen.add((f["exec"], f["sig"]))
-        ctx.fail(f["sig"], f["why"], {"script": jobs[f["exec"]][0], "persist": jobs[f["exec"]][1], "pos": f["pos"],
+        ctx.fail(f["sig"], f["why"], {"script": jobs[f["exec"]][0], "persist": jobs[f["exec"]][1], "ignore_logon_sequence_check": jobs[f["exec"]][2], "pos": f["pos"],
                                       "event": f["event"], "trace": [sm_slim(e) for e in traces[f["exec"]]]})
     ctx.tick("validate")
     ctx.exhaustive = ctx.quick
